@@ -24,7 +24,14 @@ def parse(text):
     err = io.StringIO()
     with contextlib.redirect_stderr(err), contextlib.redirect_stdout(io.StringIO()), warnings.catch_warnings():
         warnings.simplefilter("ignore")
-        p = parser().parse(text)
+        try:
+            p = parser().parse(text)
+        except BaseException:
+            # a run that was cut short (watchdog alarm, engine exception) may leave the shared parser object half-way
+            # through its bookkeeping: the next case gets a fresh one
+            global _P
+            _P = None
+            raise
     return p, err.getvalue()
 
 
@@ -332,6 +339,9 @@ def run_text(prop, m, text, acc, cs=None, name="", mfree=False, record=True):
         acc.count("engine-exception:" + type(e).__name__)
         return None
     events = list(monitors.EV)
+    m_all = m
+    if m.get("scen_tree"):
+        m = scen_model(m_all, m_all["scen_tree"][0][0])
     viol, sig, nontriv, stats, obs = analyse(prop, m, p, events, acc)
     nsc = p.scenarioCount()
     if nsc > 1:
@@ -342,19 +352,9 @@ def run_text(prop, m, text, acc, cs=None, name="", mfree=False, record=True):
         for sc in range(1, nsc):
             ev_sc = [e for e in events if e.get("sc", 0) == sc]
             m_sc = m
-            if m.get("scen_tree"):
-                # scenario-specific efforts / ends: this scenario is judged against ITS effective attributes
-                from .meta import effective
-                import copy as _copy
-                sid = m["scen_tree"][sc][0]
-                m_sc = _copy.deepcopy(m)
-                for t in m_sc["tasks"]:
-                    v = effective(m["scen_tree"], t.get("sc_effort", {}), sid)
-                    if v is not None:
-                        t["effort_min"] = v
-                    v = effective(m["scen_tree"], t.get("sc_end", {}), sid)
-                    if v is not None:
-                        t["end"] = v
+            if m_all.get("scen_tree"):
+                # scenario-specific efforts / pins / ends: this scenario is judged against ITS effective attributes
+                m_sc = scen_model(m_all, m_all["scen_tree"][sc][0])
             v2, _sig2, _nt2, _st2, _obs2 = analyse(prop, m_sc, p, ev_sc or events, acc, sc)
             acc.count("further-scenarios-analysed")
             for v in v2:
@@ -384,7 +384,7 @@ def run_text(prop, m, text, acc, cs=None, name="", mfree=False, record=True):
         mechs = ([x for x in v["mechs"] if v["clause"] == "work-booked-for-unscheduled-task"] if mfree else v["mechs"])
         rp = None
         if record:
-            rp = dict(property=prop, clause=v["clause"], seed=cs, dialect=name, mechanism_free=mfree, model=m, text=text,
+            rp = dict(property=prop, clause=v["clause"], seed=cs, dialect=name, mechanism_free=mfree, model=m_all, text=text,
                       observed=v["detail"], mechanisms=v["mechs"],
                       events=[e for e in events if e["k"] in ("book", "release", "reserve-only")][:60])
         acc.violation(prop, v["clause"], v["detail"], mechs, rp)
@@ -392,6 +392,29 @@ def run_text(prop, m, text, acc, cs=None, name="", mfree=False, record=True):
         acc.sample(dict(dialect=name, seed=cs, text=text, observed={t: (o["sch"], o["start"], o["end"]) for t, o in list(obs.T.items())[:8]},
                         monitor_events=len(events), stats=stats), limit=2)
     return viol
+
+
+def scen_model(m, sid):
+    """the model as scenario sid sees it: scenario-specific efforts / starts / ends applied; a leaf whose effort exists in
+    other scenarios only has nothing to do here (start = end, no work)"""
+    from .meta import effective
+    import copy as _copy
+    m_sc = _copy.deepcopy(m)
+    for t in m_sc["tasks"]:
+        v = effective(m["scen_tree"], t.get("sc_effort", {}), sid)
+        if v is not None:
+            t["effort_min"] = v
+        elif t.get("effort_late"):
+            for key in ("effort_min", "alloc", "alt", "alloc_dup"):
+                t.pop(key, None)
+            t["milestone"] = True
+        v = effective(m["scen_tree"], t.get("sc_start", {}), sid)
+        if v is not None:
+            t["start"] = v
+        v = effective(m["scen_tree"], t.get("sc_end", {}), sid)
+        if v is not None:
+            t["end"] = v
+    return m_sc
 
 
 def run_case(rnd, cs, job, acc):
@@ -406,7 +429,7 @@ def run_case(rnd, cs, job, acc):
         # (a fifth of the moved edges is ALSO kept as a bare 'depends': the gap written on the precedes entry still counts)
         text = gen.render(m, refrnd=random.Random(cs + 1), precrnd=random.Random(cs + 2))
         acc.count("spelled-with-precedes-and-mixed-references")
-    elif prop in ("C03", "C06", "C08") and rnd.random() < 0.07:
+    elif prop in ("C03", "C04", "C06", "C08") and rnd.random() < (0.12 if prop == "C04" else 0.09):
         # scenarios WITH overrides (efforts; deadlines of backward tasks), written in front of or behind the plain lines:
         # each scenario is judged against its own effective attributes (seeded change C08-f applied a plain 'end' written
         # below a '<scenario>:end' to that scenario)
@@ -414,11 +437,26 @@ def run_case(rnd, cs, job, acc):
         from datetime import timedelta as _td
         tree = [("plan", None), ("delayed", "plan"), ("worse", "delayed"), ("alt", "plan")]
         m["scen_tree"] = tree
+        tm_ = gen.tmap(m)
         for t in m["tasks"]:
             if t["container"]:
                 continue
-            if "effort_min" in t and not t.get("effort_inherited") and rnd.random() < 0.4:
+            if "effort_min" in t and rnd.random() < 0.4:
+                # (also on a leaf that has no effort line of its own, only the container's: the scenario-specific line is
+                #  then the ONLY effort the leaf states - seeded change C03-f looked the leaf's own statement up in the first
+                #  scenario only and let the container's value win everywhere)
                 t["sc_effort"] = {rnd.choice(["delayed", "worse", "alt"]): t["effort_min"] + rnd.choice([1, 2, 4]) * m["res"]}
+            elif ("effort_min" in t and not t.get("effort_inherited") and not m["alap"] and "start" not in t and "end" not in t
+                  and not t.get("limits") and not any("c_effort_min" in tm_[t["path"][:k_]] for k_ in range(1, len(t["path"])))
+                  and rnd.random() < 0.25):
+                # an effort that exists in later scenarios ONLY: in the others the leaf has nothing to do (start = end, no
+                # bookings) - seeded change C06-f read the first scenario's effort while booking in a later one
+                t["sc_effort"] = {rnd.choice(["delayed", "worse", "alt"]): t["effort_min"]}
+                t["effort_late"] = True
+            if (prop == "C04" or rnd.random() < 0.2) and not m["alap"] and t.get("deps") and "start" not in t and "end" not in t and rnd.random() < 0.5:
+                # a pin that exists in ONE scenario (and the scenarios nested in it): its later siblings still follow the
+                # dependencies (seeded change C04-f handed '<scenario>:start' on to every later scenario of the same level)
+                t["sc_start"] = {rnd.choice(["delayed", "worse"]): m["start"] + _td(days=rnd.randrange(0, 4), minutes=rnd.randrange(0, 24 * 60, m["res"]))}
             if "end" in t and m["alap"] and rnd.random() < 0.6:
                 t["sc_end"] = {rnd.choice(["delayed", "alt"]): t["end"] - _td(days=rnd.randint(1, 3))}
             if rnd.random() < 0.5:
